@@ -8,13 +8,13 @@ namespace OsmoVerif.Incentives
 def share (R amt den : Int) : Int := (R * amt).tdiv den
 
 /-- the entry map of `lockCoins`. -/
-def lockEntry (thr : Thr) (den amt : Int) (c : Denom × Int) : Option (Denom × Int) :=
-  if valuable thr c.1 (share c.2 amt den) && decide (0 < share c.2 amt den) then some (c.1, share c.2 amt den) else none
+def lockEntry (thr : Filter) (den amt : Int) (c : Denom × Int) : Option (Denom × Int) :=
+  if thr c.1 (share c.2 amt den) && decide (0 < share c.2 amt den) then some (c.1, share c.2 amt den) else none
 
-theorem lockCoins_eq (thr : Thr) (remain : Coins) (den amt : Int) :
+theorem lockCoins_eq (thr : Filter) (remain : Coins) (den amt : Int) :
     lockCoins thr remain den amt = remain.filterMap (lockEntry thr den amt) := rfl
 
-theorem lockEntry_fst {thr : Thr} {den amt : Int} (e r : Denom × Int) (h : lockEntry thr den amt e = some r) :
+theorem lockEntry_fst {thr : Filter} {den amt : Int} (e r : Denom × Int) (h : lockEntry thr den amt e = some r) :
     r.1 = e.1 := by
   unfold lockEntry at h
   split at h
@@ -23,9 +23,9 @@ theorem lockEntry_fst {thr : Thr} {den amt : Int} (e r : Denom × Int) (h : lock
 
 /-- **what a lock receives per denom**: the floor share of the remaining amount of that denom when it is
 worth the minimum and positive, nothing otherwise. -/
-theorem lockCoins_amount (thr : Thr) {remain : Coins} (hr : validCoins remain = true) (den amt : Int) (d : Denom) :
+theorem lockCoins_amount (thr : Filter) {remain : Coins} (hr : validCoins remain = true) (den amt : Int) (d : Denom) :
     amountOf (lockCoins thr remain den amt) d =
-      if valuable thr d (share (amountOf remain d) amt den) && decide (0 < share (amountOf remain d) amt den)
+      if thr d (share (amountOf remain d) amt den) && decide (0 < share (amountOf remain d) amt den)
       then share (amountOf remain d) amt den else 0 := by
   rw [lockCoins_eq]
   induction remain with
@@ -42,9 +42,9 @@ theorem lockCoins_amount (thr : Thr) {remain : Coins} (hr : validCoins remain = 
       rw [ha]
       simp only [List.filterMap_cons]
       have hle : lockEntry thr den amt (e, v) =
-          if valuable thr e (share v amt den) && decide (0 < share v amt den) then some (e, share v amt den) else none := rfl
+          if thr e (share v amt den) && decide (0 < share v amt den) then some (e, share v amt den) else none := rfl
       rw [hle]
-      by_cases hc : (valuable thr e (share v amt den) && decide (0 < share v amt den)) = true
+      by_cases hc : (thr e (share v amt den) && decide (0 < share v amt den)) = true
       · simp only [hc, ↓reduceIte, amountOf, amountOf_of_lb hlf, Int.add_zero]
       · simp only [hc, Bool.false_eq_true, ↓reduceIte]
         exact amountOf_of_lb hlf
@@ -59,7 +59,7 @@ theorem lockCoins_amount (thr : Thr) {remain : Coins} (hr : validCoins remain = 
         simp only at this; subst this
         simp only [amountOf, if_neg hx, Int.zero_add]
 
-theorem lockCoins_valid (thr : Thr) {remain : Coins} (hr : validCoins remain = true) (den amt : Int) :
+theorem lockCoins_valid (thr : Filter) {remain : Coins} (hr : validCoins remain = true) (den amt : Int) :
     validCoins (lockCoins thr remain den amt) = true := by
   rw [lockCoins_eq]
   induction remain with
@@ -70,9 +70,9 @@ theorem lockCoins_valid (thr : Thr) {remain : Coins} (hr : validCoins remain = t
     have hlf : lb e (t.filterMap (lockEntry thr den amt)) = true := lb_filterMap _ lockEntry_fst hl
     simp only [List.filterMap_cons]
     have hle : lockEntry thr den amt (e, v) =
-        if valuable thr e (share v amt den) && decide (0 < share v amt den) then some (e, share v amt den) else none := rfl
+        if thr e (share v amt den) && decide (0 < share v amt den) then some (e, share v amt den) else none := rfl
     rw [hle]
-    by_cases hc : (valuable thr e (share v amt den) && decide (0 < share v amt den)) = true
+    by_cases hc : (thr e (share v amt den) && decide (0 < share v amt den)) = true
     · simp only [hc, ↓reduceIte]
       simp only [Bool.and_eq_true, decide_eq_true_eq] at hc
       exact validCoins_cons.mpr ⟨hc.2, hlf, ih ht⟩
@@ -98,18 +98,18 @@ theorem valid_sumPays {ps : List Pay} (h : ∀ p ∈ ps, validCoins p.coins = tr
     exact valid_addCoins (ih (fun q hq => h q (List.mem_cons_of_mem _ hq))) (h p (List.mem_cons_self ..))
 
 /-- Σ over the locks of what each receives of denom `d`. -/
-def locksAmt (thr : Thr) (remain : Coins) (den : Int) : List Lock → Denom → Int
+def locksAmt (thr thr' : Filter) (remain : Coins) (den : Int) : List Lock → Denom → Int
   | [], _ => 0
-  | l :: ls, d => amountOf (lockCoins thr remain den l.amount) d + locksAmt thr remain den ls d
+  | l :: ls, d => amountOf (lockCoins thr remain den l.amount) d + locksAmt thr' thr' remain den ls d
 
 theorem isEmpty_amountOf {c : Coins} (h : c.isEmpty = true) (d : Denom) : amountOf c d = 0 := by
   cases c with
   | nil => rfl
   | cons _ _ => cases h
 
-theorem paysAmt_lockPays (thr : Thr) (remain : Coins) (den : Int) (ls : List Lock) (d : Denom) :
-    paysAmt (lockPays thr remain den ls) d = locksAmt thr remain den ls d := by
-  induction ls with
+theorem paysAmt_lockPays (thr thr' : Filter) (remain : Coins) (den : Int) (ls : List Lock) (d : Denom) :
+    paysAmt (lockPays thr thr' remain den ls) d = locksAmt thr thr' remain den ls d := by
+  induction ls generalizing thr with
   | nil => rfl
   | cons l ls ih =>
     simp only [lockPays, locksAmt]
@@ -118,18 +118,18 @@ theorem paysAmt_lockPays (thr : Thr) (remain : Coins) (den : Int) (ls : List Loc
       rw [ih, isEmpty_amountOf he]; omega
     · simp only [paysAmt, ih]
 
-theorem lockPays_valid (thr : Thr) {remain : Coins} (hr : validCoins remain = true) (den : Int) (ls : List Lock) :
-    ∀ p ∈ lockPays thr remain den ls, validCoins p.coins = true := by
-  induction ls with
+theorem lockPays_valid (thr thr' : Filter) {remain : Coins} (hr : validCoins remain = true) (den : Int) (ls : List Lock) :
+    ∀ p ∈ lockPays thr thr' remain den ls, validCoins p.coins = true := by
+  induction ls generalizing thr with
   | nil => intro p hp; cases hp
   | cons l ls ih =>
     intro p hp
     simp only [lockPays] at hp
     split at hp
-    · exact ih p hp
+    · exact ih _ p hp
     · rcases List.mem_cons.mp hp with rfl | h
       · exact lockCoins_valid thr hr den _
-      · exact ih p h
+      · exact ih _ p h
 
 /-! ### the bound -/
 
@@ -144,7 +144,7 @@ theorem den_mul_share_le {R amt den : Int} (hR : 0 ≤ R) (ha : 0 ≤ amt) (hd :
   rw [Int.tdiv_eq_ediv_of_nonneg (Int.mul_nonneg hR ha)]
   exact Int.mul_ediv_self_le (by omega)
 
-theorem lockCoins_amount_le (thr : Thr) {remain : Coins} (hr : validCoins remain = true) {den : Int} (hd : 0 < den)
+theorem lockCoins_amount_le (thr : Filter) {remain : Coins} (hr : validCoins remain = true) {den : Int} (hd : 0 < den)
     (amt : Nat) (d : Denom) :
     0 ≤ amountOf (lockCoins thr remain den amt) d ∧
     amountOf (lockCoins thr remain den amt) d ≤ share (amountOf remain d) amt den := by
@@ -152,12 +152,13 @@ theorem lockCoins_amount_le (thr : Thr) {remain : Coins} (hr : validCoins remain
   have hn := share_nonneg (amountOf_nonneg hr d) (Int.natCast_nonneg amt) hd
   split <;> omega
 
-theorem den_mul_locksAmt_le (thr : Thr) {remain : Coins} (hr : validCoins remain = true) {den : Int} (hd : 0 < den)
+theorem den_mul_locksAmt_le (thr thr' : Filter) {remain : Coins} (hr : validCoins remain = true) {den : Int} (hd : 0 < den)
     (ls : List Lock) (d : Denom) :
-    0 ≤ locksAmt thr remain den ls d ∧ den * locksAmt thr remain den ls d ≤ amountOf remain d * lockSum ls := by
-  induction ls with
+    0 ≤ locksAmt thr thr' remain den ls d ∧ den * locksAmt thr thr' remain den ls d ≤ amountOf remain d * lockSum ls := by
+  induction ls generalizing thr with
   | nil => simp [locksAmt, lockSum]
   | cons l ls ih =>
+    have ih := ih thr'
     obtain ⟨h0, h1⟩ := lockCoins_amount_le thr hr hd l.amount d
     have h2 := den_mul_share_le (amountOf_nonneg hr d) (Int.natCast_nonneg l.amount) hd
     have h3 : den * amountOf (lockCoins thr remain den l.amount) d ≤ den * share (amountOf remain d) l.amount den :=
@@ -166,18 +167,18 @@ theorem den_mul_locksAmt_le (thr : Thr) {remain : Coins} (hr : validCoins remain
     omega
 
 /-- **Σ of the floor shares never exceeds the remaining amount** (`S = lockSum > 0`, `e ≥ 1` remaining epochs). -/
-theorem locksAmt_le_remain (thr : Thr) {remain : Coins} (hr : validCoins remain = true) (ls : List Lock) {e : Int}
+theorem locksAmt_le_remain (thr thr' : Filter) {remain : Coins} (hr : validCoins remain = true) (ls : List Lock) {e : Int}
     (hS : 0 < lockSum ls) (he : 1 ≤ e) (d : Denom) :
-    0 ≤ locksAmt thr remain (lockSum ls * e) ls d ∧ locksAmt thr remain (lockSum ls * e) ls d ≤ amountOf remain d := by
+    0 ≤ locksAmt thr thr' remain (lockSum ls * e) ls d ∧ locksAmt thr thr' remain (lockSum ls * e) ls d ≤ amountOf remain d := by
   have hd : 0 < lockSum ls * e := Int.mul_pos hS (by omega)
-  obtain ⟨h0, h1⟩ := den_mul_locksAmt_le thr hr hd ls d
+  obtain ⟨h0, h1⟩ := den_mul_locksAmt_le thr thr' hr hd ls d
   refine ⟨h0, ?_⟩
   have hR := amountOf_nonneg hr d
   have h2 : lockSum ls * 1 ≤ lockSum ls * e := Int.mul_le_mul_of_nonneg_left he (by omega)
   have h3 : amountOf remain d * (lockSum ls * 1) ≤ amountOf remain d * (lockSum ls * e) :=
     Int.mul_le_mul_of_nonneg_left h2 hR
   rw [Int.mul_one] at h3
-  have h4 : lockSum ls * e * locksAmt thr remain (lockSum ls * e) ls d ≤ lockSum ls * e * amountOf remain d := by
+  have h4 : lockSum ls * e * locksAmt thr thr' remain (lockSum ls * e) ls d ≤ lockSum ls * e * amountOf remain d := by
     rw [Int.mul_comm (lockSum ls * e) (amountOf remain d)]
     omega
   exact Int.le_of_mul_le_mul_left h4 hd
